@@ -13,8 +13,8 @@ RULE = (
     "another reference; state = (template shape, line)"
 )
 BOUNDS = {
-    "quick": "all well-formed chunk sequences of length <=3 over 10 text chunks + 8 references; 2 files x plain, 1 file x onmatch/once for templates of length <=2",
-    "thorough": "all well-formed chunk sequences of length <=4 over 10 text chunks + 6 references, length <=3 over 12 references; 3 files x 3 forms",
+    "quick": "all well-formed chunk sequences of length <=3 over 10 text chunks + 9 references; 2 files x plain, 1 file x onmatch/once for templates of length <=2",
+    "thorough": "all well-formed chunk sequences of length <=4 over 10 text chunks + 6 references, length <=3 over 13 references; 3 files x 3 forms",
 }
 CHUNK = 250
 BUDGET = {"quick": 600, "thorough": 3400}
@@ -40,12 +40,13 @@ REFS12 = REFS6 + [
     ["r", "csvpath", "count_lines"],
     ["r", "csvpath", "count_scans"],
     ["r", "csvpath", "total_lines"],
+    ["r", "headers", "77"],
 ]
 FILES = [
-    [["a", "b", "x y"], ["1", "2", "3"], ["v w", "", "z"]],
-    [["a", "b", "x y"], ["10", "-3", "q"]],
-    [["a", "b", "x y"], ["k", "1.5", "é"], ["k2", "t", "u"], ["k3", "t", "u"]],
-]
+    [["a", "b", "x y", "77"], ["1", "2", "3", "n1"], ["v w", "", "z", "n2"]],
+    [["a", "b", "x y", "77"], ["10", "-3", "q", "n3"]],
+    [["a", "b", "x y", "77"], ["k", "1.5", "é", "n4"], ["k2", "t", "u", "n5"], ["k3", "t", "u", "n6"]],
+]  # the fourth header's NAME is all digits (and is not a valid index): $.headers.77 is a reference by name
 
 
 def templates(maxlen, refs):
@@ -61,7 +62,7 @@ def templates(maxlen, refs):
 
 def cases(tier, seed):
     if tier == "quick":
-        for t in templates(3, REFS6 + [["r", "headers", "1"], ["r", "headers", "x y"]]):
+        for t in templates(3, REFS6 + [["r", "headers", "1"], ["r", "headers", "x y"], ["r", "headers", "77"]]):
             yield {"t": t, "file": 0, "form": "plain"}
             yield {"t": t, "file": 1, "form": "plain"}
             if len(t) <= 2:
@@ -125,7 +126,7 @@ def run_case(case):
             raise KeyError(name)
 
         def headers(name, sub, row=row):
-            idx = int(name) if str(name).isdigit() else hdrs.index(name)
+            idx = hdrs.index(name) if name in hdrs else int(name)  # a name wins; an all-digit token that names no header is an index
             return row[idx]
 
         def metadata(name, sub):
